@@ -3,6 +3,7 @@ C01 — Requests reach the backend exactly as the client sent them.
 -/
 import Olla.Model.Body
 import Olla.Spec.C01
+import Olla.Spec.State
 
 namespace Olla.Props.C01
 open Olla.Model.Body
@@ -235,5 +236,16 @@ theorem isolation_alias_witness : (run .alias 8 exBodies exSched).sent 0 = some 
 
 example : (run .copy 8 exBodies exSched).sent 0 = some [65, 65, 65] := by decide
 example : (run .copy 8 exBodies exSched).sent 1 = some [66, 66, 66] := by decide
+
+/-! ### tie: no process-wide state on the modelled path
+
+The theorems above are about single calls (or the history of one object). They cover every
+request of a running process only if a call reaches no state that outlives it besides that
+object. `Olla.Gen.State` is re-read from the source on every run: the package-level variables
+reachable from each function inside its package that the package changes after initialisation. -/
+theorem C01_tie_no_process_wide_state :
+    Olla.Spec.State.reachesOnly "core.ExecuteWithRetry" [] = true ∧
+    Olla.Spec.State.reachesOnly "sherpa.ProxyRequestToEndpoints" [] = true ∧
+    Olla.Spec.State.reachesOnly "olla.ProxyRequestToEndpoints" [] = true := by decide
 
 end Olla.Props.C01
